@@ -160,6 +160,12 @@ def gen_case(rng, index, tier):
             base_nm = 'via-link-%d' % i
             shown = D + '/x/lk/../' + base_nm
             loc = D + '/y/' + base_nm
+        slash = False
+        if not dup and not shown and rng.random() < 0.08:
+            # a foreign .trashinfo whose Path ends in a separator (written so
+            # for directories by other tools): the same destination
+            shown = loc + '/'
+            slash = True
         e = trashgen.add_trashed(L, rng, tdir, 'n%d' % i, shown or loc,
                                  '20%02d-01-0%dT10:00:00' % (10 + i, i + 1),
                                  kind, tag, volume_rel=volume, home=home)
@@ -168,6 +174,10 @@ def gen_case(rng, index, tier):
             e['loc'] = loc
         dest = rng.choice(DEST) if not dup else \
             [x for x in entries if x['loc'] == loc][0]['dest']
+        while slash and dest == 'none':
+            dest = rng.choice(DEST)      # (a free destination: C20's finding)
+        if slash:
+            e['trailing_separator'] = True
         e['dest'] = dest
         if dup:
             entries.append(e)
@@ -216,6 +226,8 @@ def gen_case(rng, index, tier):
         # --overwrite the destination "is replaced" trivially while the name
         # in files/ stays (noted in DESIGN.md); the kind is here for the
         # refusal without --overwrite
+        case['overwrite'] = False
+    if any(e.get('trailing_separator') for e in entries):
         case['overwrite'] = False
     case['sort'] = rng.choice([None, 'date', 'path'])
     sel = rng.choice(['one', 'one', 'all-range', 'all-list', 'rev-list'])
